@@ -19,7 +19,7 @@ pub struct ConcCase {
 }
 
 pub fn run_cc(c: &ConcCase, drain_ms: u64) -> RunResult {
-  let cfg = arx_rt::Config { schedule: c.sched.to_schedule(), max_steps: 300_000, fuel: 200_000 };
+  let cfg = arx_rt::Config { schedule: c.sched.to_schedule(), max_steps: 60_000, fuel: 100_000 };
   let opts = RunOpts { settle: true, final_wait_ms: 10_000, drain_ms, sentinel: false };
   run_conc(&c.case, &c.threads, cfg, opts)
 }
